@@ -104,3 +104,30 @@ void h_send_any(void) {
   if (g_step_role == 2 && r == RESULT_CONTINUE) { CANARY("answer symbol sent"); }
 #endif
 }
+
+/* C04 only: request life cycle under ARBITRARY device behaviour (arbitration verdicts at any time, also late or unsolicited ones):
+   only the handler invariant is assumed, not the simulation relation; only the [C04] obligations of this run are counted */
+void h_recv_c04(void) {
+  SETUP
+  struct vtimespec sentTime = nondet_ts(); unsigned timeout = nondet_uint(); symbol_t sentSymbol = nondet_sym(); _Bool sending = nondet_bool();
+  __CPROVER_assume(TS_OK(sentTime));
+  __CPROVER_assume(inv(&h, 0));
+  g_step_role = role_of(&h);
+  result_t r = DPH_handleReceive(&h, timeout, sending, sentSymbol, &sentTime);
+  __CPROVER_assert(NO_LOST_REQUEST, "[C04] no request is left in limbo by a receive step, whatever the device reports and whenever");
+  __CPROVER_assert(inv_part(&h, 2, 1), "[C04] invariant: a current request is alive and not yet completed");
+  __CPROVER_assert(inv_part(&h, 3, 1), "[C04] invariant: the head of the queue is a queued request");
+  if (g_last_arb == as_won && PASSIVE_STATE(h.m_state)) { CANARY("late or refused won verdict"); }
+  if (g_notify_calls == 1) { CANARY("request completed"); }
+}
+void h_send_c04(void) {
+  SETUP
+  struct vtimespec sentTime; unsigned recvTimeout = nondet_uint(); symbol_t sentSymbol = nondet_sym();
+  __CPROVER_assume(inv(&h, 1));
+  g_step_role = role_of(&h);
+  result_t r = DPH_handleSend(&h, &recvTimeout, &sentSymbol, &sentTime);
+  __CPROVER_assert(NO_LOST_REQUEST, "[C04] no request is left in limbo by a send step");
+  __CPROVER_assert(inv_part(&h, 2, 0), "[C04] invariant: a current request is alive and not yet completed");
+  __CPROVER_assert(inv_part(&h, 3, 0), "[C04] invariant: the head of the queue is a queued request");
+  if (g_notify_calls == 1) { CANARY("request completed"); }
+}
